@@ -608,7 +608,12 @@ func (g *c06gen) deepNest() {
 		}
 	}
 	level(0, nil)
-	fmt.Fprintf(&b, "    return n[0]\n")
+	if g.r.Bool() {
+		fmt.Fprintf(&b, "    return n[0]\n")
+	} else {
+		// the statement after the outermost loop is a return whose expression mutates
+		fmt.Fprintf(&b, "    return must_ok(%s, c0)\n", g.mut(actual[0]))
+	}
 	g.addDef(fn, b.String())
 	var args []string
 	for _, c := range actual {
@@ -675,7 +680,12 @@ func (g *c06gen) construct() {
 		if g.r.Chance(3, 4) {
 			fmt.Fprintf(&b, "        if n == %d:\n            %s\n", g.r.Range(1, 3), g.exitStmt(3, true))
 		}
-		fmt.Fprintf(&b, "    must_ok(%s, c)\n    return n\n", g.mut(c))
+		if g.r.Bool() {
+			// the mutation IS the return expression, directly after the loop
+			fmt.Fprintf(&b, "    return must_ok(%s, c)\n", g.mut(c))
+		} else {
+			fmt.Fprintf(&b, "    must_ok(%s, c)\n    return n\n", g.mut(c))
+		}
 		g.addDef(fn, b.String())
 		g.emit(1, "attempt(%s, %s)", fn, c.name)
 		g.emit(1, "must_ok(%s, %s)", g.mut(c), c.name)
